@@ -98,7 +98,7 @@ def run(ctx):
 
     def add_pair(klass, prefix_ops, reset_tok, ref_script, settings, model, cfg='0:0', meta=None):
         """prefix ; reset ; [snap] ; ref ; fin   versus   fresh: settings(if kept) ; ref ; fin"""
-        a = Script(list(settings) + list(prefix_ops))
+        a = Script(list(settings)); a.extend(Script(list(prefix_ops)))
         a.emit(reset_tok); a.emit('snap')
         a.extend(ref_script); a.emit('fin'); a.emit('snap')
         # the settings in force after the final reset: last cl / vl / ml values not wiped by a reset with set_defaults
@@ -307,6 +307,18 @@ def run(ctx):
                 if x != w: unexplained.append((j, tok, 'value', x, y))
             if len(unexplained) > 5: break
         if unexplained:
+            # a vtable emitted twice (cache keyed by the hash of the add sequence)? re-run with the recording emitter and count
+            probe = []
+            for t in c.ops:
+                if t.split(':')[0] in ('rs', 'clr'): probe.append('nvt')
+                if t not in ('snap', 'fin'): probe.append(t)
+            probe.append('nvt')
+            pr = lib.run_harness_resilient(H, ['cfg:1:1 ' + ' '.join(probe)])[0].split()
+            dup = [t for t in pr if re.fullmatch(r'\d+/\d+', t) and t.split('/')[0] != t.split('/')[1]]
+            if dup:
+                ctx.violation('vtable-emitted-twice', 'a top-level buffer without cache limit contains the same vtable more than once (vtable emits / distinct contents = %s); '
+                              'the model emits it once' % dup[0], {'harness_line': 'cfg:1:1 ' + ' '.join(probe), 'model_line': c.model_line(True)})
+                continue
             ncorr += 1
             j, tok, f, x, y = unexplained[0]
             ctx.violation('corr:%s:%s' % (c.klass.split(':')[0], f),
@@ -358,6 +370,12 @@ def run(ctx):
     for rname, ref in refs + [('rich', rich[0][1])]:
         s = Script(['sb:0:0:0', 'st:1', 'rs:0:0']); s.extend(ref); s.emit('nvt'); s.emit('evs')
         nvt_cases.append(Case('vtable_once', s.ops, True, '1:1'))
+    # identical vtables reached through different add sequences (other field order, a 2-byte scalar in the slot of a 4-byte offset)
+    for ops in (['sb:0:0:2', 'st:3', 'st:2', 'ta:1:2:2:d94d', 'ta:0:4:4:30bfaf13', 'et', 'to:1:$5', 'ta:0:4:4:6575aa8b', 'et', 'eb:$8'],
+                ['sb:0:0:0', 'st:2', 'ta:0:4:4:01000000', 'ta:1:4:4:02000000', 'et', 'st:2', 'ta:1:4:4:03000000', 'ta:0:4:4:04000000', 'et',
+                 'so', 'xo:$4,$8', 'eo', 'st:1', 'to:0:$11', 'et', 'eb:$14']):
+        s = Script(); s.extend(Script(ops)); s.emit('nvt'); s.emit('evs')
+        nvt_cases.append(Case('vtable_once', s.ops, True, '1:1'))
     gv = Gen(random.Random(ctx.seed + 31), max_depth=4, allow_nested=False)
     for k in range(60 if ctx.thorough else 12):
         s = Script(); s.extend(gv.build(root='table')); s.emit('nvt'); s.emit('evs')
@@ -376,6 +394,7 @@ def run(ctx):
             if n != d:
                 ctx.violation('vtable-emitted-twice', 'a vtable was emitted %s times for %s distinct contents in one top-level buffer without cache limit' % (n, d),
                               {'harness_line': c.impl_line()})
+                continue
         if ta[-1] != tm[-1]:
             ctx.violation('corr:emit-stream', 'emit stream of the implementation differs from the model: impl %s model %s' % (ta[-1][:120], tm[-1][:120]),
                           {'harness_line': c.impl_line(), 'model_line': c.model_line(True)})
